@@ -6,5 +6,12 @@ From TarpcV Require Import Base SockFront.
 
 Definition case := (unit * list smsg * list kobs)%type.
 Definition model (c : case) : list kobs := let '(_, ms, _) := c in sk_model ms.
+(* [KNoSockets]: the harness found that plain tokio sockets of that kind (no tarpc code involved) do
+   not work in this process; such a script decides nothing (the evidence's scenario histogram counts
+   them under NO-SOCKETS-IN-THIS-SANDBOX) *)
 Definition check (c : case) : N :=
-  let '(_, ms, tr) := c in verdict (list_eqb kobs_eqb (sk_model ms) tr) (sk_ok ms tr).
+  let '(_, ms, tr) := c in
+  match tr with
+  | [KNoSockets] => 0%N
+  | _ => verdict (list_eqb kobs_eqb (sk_model ms) tr) (sk_ok ms tr)
+  end.
